@@ -6,8 +6,9 @@ from ..real import hex6
 ID = "C13"
 LEAN_TARGETS = ["Cider.Props.C13", "Cider.Props.C13Tie"]
 # source-text tie (translated on every run by tools/pyexpr2lean.py); skipped when the function no longer fits the translator
-OPTIONAL_TARGETS = ["Cider.Props.C13Src"]
-OPTIONAL_THEOREMS = {"Cider.Props.C13Src": ['Cider.C13Src.checkWindow_eq', 'Cider.C13Src.checkWindow_profile']}
+OPTIONAL_TARGETS = ["Cider.Props.C13Src", "Cider.Props.C13Val"]
+OPTIONAL_THEOREMS = {"Cider.Props.C13Src": ['Cider.C13Src.checkWindow_eq', 'Cider.C13Src.checkWindow_profile'],
+                     "Cider.Props.C13Val": ['Cider.C13Val.validateChar_eq', 'Cider.C13Val.decision_table', 'Cider.C13Val.frame_eq']}
 P = "Cider.C13."
 THEOREMS = [P + t for t in (
     "validateChars_ok_iff", "letters_eq_parse_of_nonspace", "construct_ok_iff", "construct_never_empty",
